@@ -188,6 +188,10 @@ class AlgEmitter:
                         self.fail(s, 'scatter index')
                     continue
                 self.fail(s, 'assignment target')
+            if isinstance(s, ast.AugAssign) and isinstance(s.target, ast.Name) and isinstance(s.op, (ast.Add, ast.Sub)):
+                o = '+' if isinstance(s.op, ast.Add) else '-'
+                self.env[s.target.id] = f'({self.tr(s.target)} {o} {self.tr(s.value)})'
+                continue
             if isinstance(s, ast.If):
                 c = self.cond(s.test)
                 if c == 'ndim':
@@ -348,7 +352,329 @@ def gen_dense(repo):
     return '\n'.join(out)
 
 
+
+# ----------------------------------------------------------------------------------------- CG loop
+CG_PARAMS = ('(M : ringType) (tr cj : M -> M) (precond orth1 orth2 inv : M -> M) (A b : M)')
+
+
+class CGEmitter(AlgEmitter):
+    """adds: np.linalg.inv, self.preconditioner.solve(r, trans=trans), orth(., normalize=..), augmented assignment"""
+
+    def tr(self, n):
+        if isinstance(n, ast.Call):
+            fs = ast.unparse(n.func)
+            kw = {k.arg: ast.unparse(k.value) for k in n.keywords}
+            if fs == 'np.linalg.inv' and len(n.args) == 1 and not kw:
+                return f'(inv {self.tr(n.args[0])})'
+            if fs == 'self.preconditioner.solve' and len(n.args) == 1 and kw == {'trans': 'trans'}:
+                return f'(precond {self.tr(n.args[0])})'
+            if fs == 'orth' and len(n.args) == 1 and kw in ({'normalize': 'True'}, {'normalize': 'False'}):
+                return f'({"orth1" if kw["normalize"] == "True" else "orth2"} {self.tr(n.args[0])})'
+        return super().tr(n)
+
+
+def _is_print_if(s):
+    return isinstance(s, ast.If) and ast.unparse(s.test).startswith('self.verbosity >=') and not s.orelse and \
+        all(isinstance(b, ast.Expr) and isinstance(b.value, ast.Call) and ast.unparse(b.value.func) == 'print' for b in s.body)
+
+
+TVAL = 'tval = np.linalg.norm(r, axis=0) / np.linalg.norm(b, axis=0)'
+
+
+def gen_cg(repo):
+    tree, _ = parse_file(os.path.join(repo, 'pymoto/solvers/iterative.py'))
+    c = find_class(tree, 'CG')
+    fn = find_func(c, 'solve')
+    if [a.arg for a in fn.args.args] != ['self', 'rhs', 'x0', 'trans']:
+        raise Unsupported('T-alg: CG.solve signature changed')
+    body = [s for s in fn.body if not (isinstance(s, ast.Expr) and isinstance(s.value, ast.Constant))]
+    out = [HEADER.format(src='pymoto/solvers/iterative.py (CG.solve)')]
+    k = 0
+    # 1. matrix selection
+    sel = body[k]
+    k += 1
+    if not isinstance(sel, ast.If):
+        raise Unsupported('T-alg: CG.solve: matrix selection expected first')
+    arms = []
+    for tv, ct in TRANS.items():
+        em = CGEmitter({'trans': tv}, {'A': 'A0'}, env={})
+        r = em.block([sel])
+        if r is not None or 'A' not in em.env:
+            raise Unsupported('T-alg: CG.solve: matrix selection')
+        arms.append(f'    | {ct} => {em.env["A"]}')
+    em = CGEmitter({'trans': '?'}, {'A': 'A0'}, env={})
+    if em.block([sel]) != RAISE:
+        raise Unsupported('T-alg: CG.solve: invalid trans must raise')
+    out.append(f'Definition gen_cg_mat (M : ringType) (tr cj : M -> M) (A0 : M) (t : trans) : M :=\n  (match t with\n' + '\n'.join(arms) + '\n    end).\n')
+    # 2. shape glue, fingerprints (b is rhs as a block, x is x0 (or zeros) as a block)
+    glue = ['tstart = time.perf_counter()',
+            'if rhs.ndim == 1:\n    b = rhs.reshape((rhs.size, 1))\nelse:\n    b = rhs',
+            'x = np.zeros_like(rhs, dtype=np.result_type(rhs, A)) if x0 is None else x0.copy()',
+            'if x.ndim == 1:\n    x = x.reshape((x.size, 1))']
+    for g in glue:
+        if ast.unparse(body[k]) != norm(g):
+            raise Unsupported('T-alg: CG.solve: expected `' + g + '` got `' + ast.unparse(body[k])[:100] + '`')
+        k += 1
+    em = CGEmitter({}, {}, env={'A': 'A', 'b': 'b', 'x': 'x', 'p': 'p'})
+    # 3. initial residual, early exit, first directions
+    st = body[k]; k += 1
+    if not (isinstance(st, ast.Assign) and ast.unparse(st.targets[0]) == 'r'):
+        raise Unsupported('T-alg: CG.solve: initial residual')
+    em.block([st])
+    out.append(f'Definition gen_cg_r0 {CG_PARAMS} (x : M) : M :=\n  {em.env["r"]}.\n')
+    if ast.unparse(body[k]) != norm(TVAL):
+        raise Unsupported('T-alg: CG.solve: tval after initial residual')
+    k += 1
+    while _is_print_if(body[k]):
+        k += 1
+    early = body[k]; k += 1
+    if not (isinstance(early, ast.If) and ast.unparse(early.test) == 'tval.max() <= self.tol' and not early.orelse
+            and all(_is_print_if(s) for s in early.body[:-1])
+            and ast.unparse(early.body[-1]) == 'return x.flatten() if rhs.ndim == 1 else x'):
+        raise Unsupported('T-alg: CG.solve: early exit')
+    em.env['r'] = 'r'
+    while not isinstance(body[k], ast.For):
+        em.block([body[k]])
+        k += 1
+    out.append(f'Definition gen_cg_p0 {CG_PARAMS} (r : M) : M :=\n  {em.env["p"]}.\n')
+    # 4. the loop
+    loop = body[k]; k += 1
+    if ast.unparse(loop.target) != 'i' or ast.unparse(loop.iter) != 'range(self.maxit)' or loop.orelse:
+        raise Unsupported('T-alg: CG.solve: loop header')
+
+    def run(restart_now):
+        e = CGEmitter({}, {}, env={'A': 'A', 'b': 'b', 'x': 'x', 'r': 'r', 'p': 'p'})
+        exit_vals = None
+        fresh_tval = False
+        for s in loop.body:
+            if _is_print_if(s):
+                continue
+            if ast.unparse(s) == norm(TVAL):
+                fresh_tval = True
+                continue
+            if isinstance(s, ast.If) and ast.unparse(s.test) == 'tval.max() <= self.tol':
+                if not fresh_tval or s.orelse or len(s.body) != 1 or not isinstance(s.body[0], ast.Break) or exit_vals:
+                    raise Unsupported('T-alg: CG.solve: exit test')
+                exit_vals = (e.env['x'], e.env['r'])
+                continue
+            if isinstance(s, ast.If) and ast.unparse(s.test) == 'i % self.restart == 0':
+                r1 = e.block(s.body if restart_now else s.orelse)
+                if r1 is not None:
+                    raise Unsupported('T-alg: CG.solve: restart branch returns')
+                fresh_tval = False
+                continue
+            if isinstance(s, ast.AugAssign) and isinstance(s.target, ast.Name) and isinstance(s.op, (ast.Add, ast.Sub)):
+                o = '+' if isinstance(s.op, ast.Add) else '-'
+                e.env[s.target.id] = f'({e.env[s.target.id]} {o} {e.tr(s.value)})'
+                fresh_tval = False
+                continue
+            if isinstance(s, ast.Assign):
+                e.block([s])
+                if ast.unparse(s.targets[0]) in ('r', 'x'):
+                    fresh_tval = False
+                continue
+            raise Unsupported('T-alg: CG.solve: loop statement ' + ast.unparse(s)[:100])
+        if exit_vals is None:
+            raise Unsupported('T-alg: CG.solve: no exit test in loop')
+        if e.env['x'] != exit_vals[0] or e.env['r'] != exit_vals[1]:
+            raise Unsupported('T-alg: CG.solve: x or r modified after the exit test')
+        return exit_vals[0], exit_vals[1], e.env['p']
+    # AugAssign inside the restart branches: extend block handling through a subclass hook
+    xr, rr, pr = run(True)
+    xn, rn, pn = run(False)
+    if xr != xn:
+        raise Unsupported('T-alg: CG.solve: x update depends on restart')
+    sig = f'{CG_PARAMS} (x r p : M) : M'
+    out.append(f'Definition gen_cg_step_x {sig} :=\n  {xr}.\n')
+    out.append(f'Definition gen_cg_step_r (restart_now : bool) {sig} :=\n  if restart_now then {rr}\n  else {rn}.\n')
+    out.append(f'Definition gen_cg_step_p (restart_now : bool) {sig} :=\n  if restart_now then {pr}\n  else {pn}.\n')
+    # 5. epilogue: warning iff last tval above tolerance; returns x
+    rest = body[k:]
+    if len(rest) != 2 or not (isinstance(rest[0], ast.If) and ast.unparse(rest[0].test) == 'tval.max() > self.tol'
+                              and ast.unparse(rest[0].body[0]).startswith('warnings.warn(')) \
+            or ast.unparse(rest[1]) != 'return x.flatten() if rhs.ndim == 1 else x':
+        raise Unsupported('T-alg: CG.solve: epilogue changed')
+    return '\n'.join(out)
+
+
+
+# ----------------------------------------------------------------------------------------- T-dec
+DEC_ATOMS = {
+    'matrix_is_sparse(A)': 'f_sparse',
+    'A.shape[0] == A.shape[1]': 'f_square',
+    'matrix_is_diagonal(A)': 'f_diag',
+    'np.allclose(A, np.tril(A))': 'f_lower',
+    'np.allclose(A, np.triu(A))': 'f_upper',
+    'np.iscomplexobj(A)': 'f_complex',
+    'matrix_is_hermitian(A)': 'f_herm',
+    'matrix_is_symmetric(A)': 'f_sym',
+    'np.all(A.diagonal() > 0)': 'f_dpos',
+    'np.all(A.diagonal() < 0)': 'f_dneg',
+    'SolverSparsePardiso.defined': 'has_pardiso',
+    'SolverSparseCholeskyScikit.defined': 'has_scikit',
+    'SolverSparseCholeskyCVXOPT.defined': 'has_cvxopt',
+}
+DEC_PARAMS = {'isdiagonal': 'o_diag', 'islowertriangular': 'o_lower', 'isuppertriangular': 'o_upper',
+              'ishermitian': 'o_herm', 'issymmetric': 'o_sym', 'ispositivedefinite': 'o_pd'}
+DEC_RESULTS = {'SolverDenseQR': ('KDenseQR', []), 'SolverDiagonal': ('KDiagonal', []),
+               'SolverSparsePardiso': ('KPardiso', ['symmetric', 'hermitian', 'positive_definite']),
+               'SolverSparseCholeskyScikit': ('KSparseCholScikit', []), 'SolverSparseCholeskyCVXOPT': ('KSparseCholCVXOPT', []),
+               'SolverSparseLU': ('KSparseLU', []), 'SolverDenseCholesky': ('KDenseCholesky', []),
+               'SolverDenseLDL': ('KDenseLDL', ['hermitian']), 'SolverDenseLU': ('KDenseLU', [])}
+DEC_SIG = ('(f_sparse f_square f_diag f_lower f_upper f_complex f_herm f_sym f_dpos f_dneg : bool) '
+           '(has_pardiso has_scikit has_cvxopt : bool) (o_diag o_lower o_upper o_herm o_sym o_pd : option bool)')
+IGNORED_CALLS = ('warnings.WarningMessage', 'sps.SparseEfficiencyWarning')
+
+
+class DecEmitter:
+    def __init__(self):
+        self.lets = []      # (name, term)
+        self.rets = []      # (pc, result)
+        self.n = 0
+
+    def fail(self, node, why=''):
+        raise Unsupported(f'T-dec: unsupported {type(node).__name__} {why}: {ast.unparse(node)[:140]}')
+
+    def fresh(self, base, term):
+        self.n += 1
+        name = f'{base}_{self.n}'
+        self.lets.append((name, term))
+        return name
+
+    @staticmethod
+    def truthy(v):
+        t, ty = v
+        return t if ty == 'B' else f'(otrue {t})'
+
+    @staticmethod
+    def lift(v):
+        t, ty = v
+        return t if ty == 'OB' else f'(Some {t})'
+
+    def ev(self, n, env):
+        src = ast.unparse(n)
+        if src in DEC_ATOMS:
+            return DEC_ATOMS[src], 'B'
+        if isinstance(n, ast.Name):
+            if n.id in env:
+                return env[n.id]
+            self.fail(n, 'unbound name')
+        if isinstance(n, ast.Constant):
+            if n.value is None:
+                return 'None', 'OB'
+            if isinstance(n.value, bool):
+                return ('true' if n.value else 'false'), 'B'
+            self.fail(n, 'constant')
+        if isinstance(n, ast.Compare) and len(n.ops) == 1:
+            l, r = n.left, n.comparators[0]
+            if isinstance(n.ops[0], (ast.Is, ast.IsNot)) and isinstance(r, ast.Constant) and r.value is None:
+                t, ty = self.ev(l, env)
+                e = 'false' if ty == 'B' else f'(isnone {t})'
+                return (e if isinstance(n.ops[0], ast.Is) else f'(negb {e})'), 'B'
+            if isinstance(n.ops[0], (ast.Eq, ast.NotEq)):
+                e = f'(obeq {self.lift(self.ev(l, env))} {self.lift(self.ev(r, env))})'
+                return (e if isinstance(n.ops[0], ast.Eq) else f'(negb {e})'), 'B'
+            self.fail(n, 'comparison')
+        if isinstance(n, ast.BoolOp):
+            parts = [self.truthy(self.ev(v, env)) for v in n.values]
+            return '(' + (' && ' if isinstance(n.op, ast.And) else ' || ').join(parts) + ')', 'B'
+        if isinstance(n, ast.UnaryOp) and isinstance(n.op, ast.Not):
+            return f'(negb {self.truthy(self.ev(n.operand, env))})', 'B'
+        if isinstance(n, ast.IfExp):
+            c = self.truthy(self.ev(n.test, env))
+            a, b = self.ev(n.body, env), self.ev(n.orelse, env)
+            if a[1] == b[1]:
+                return f'(if {c} then {a[0]} else {b[0]})', a[1]
+            return f'(if {c} then {self.lift(a)} else {self.lift(b)})', 'OB'
+        self.fail(n, 'expression')
+
+    def result(self, n, env):
+        if not (isinstance(n, ast.Call) and isinstance(n.func, ast.Name) and n.func.id in DEC_RESULTS and not n.args):
+            self.fail(n, 'return value')
+        k, kws = DEC_RESULTS[n.func.id]
+        got = {kw.arg: kw.value for kw in n.keywords}
+        if set(got) != set(kws):
+            self.fail(n, 'constructor arguments')
+        return '(' + ' '.join([k] + [self.lift(self.ev(got[a], env)) for a in kws]) + ')' if kws else k
+
+    def block(self, stmts, env, pc):
+        """returns True when every path through stmts returned"""
+        for s in stmts:
+            if isinstance(s, ast.Expr):
+                v = s.value
+                if isinstance(v, ast.Constant) and isinstance(v.value, str):
+                    continue
+                if isinstance(v, ast.Call) and ast.unparse(v.func) in IGNORED_CALLS:
+                    continue
+                self.fail(s, 'expression statement')
+            if isinstance(s, ast.Assign) and len(s.targets) == 1 and isinstance(s.targets[0], ast.Name):
+                t, ty = self.ev(s.value, env)
+                env[s.targets[0].id] = (self.fresh(s.targets[0].id, t), ty)
+                continue
+            if isinstance(s, ast.Assert):
+                c = self.truthy(self.ev(s.test, env))
+                self.rets.append((f'({pc} && negb {c})', 'KAssertionError'))
+                pc = self.fresh('pc', f'({pc} && {c})')
+                continue
+            if isinstance(s, ast.Return):
+                self.rets.append((pc, self.result(s.value, env)))
+                return True
+            if isinstance(s, ast.If):
+                c = self.fresh('c', self.truthy(self.ev(s.test, env)))
+                e1, e2 = dict(env), dict(env)
+                t1 = self.block(s.body, e1, self.fresh('pc', f'({pc} && {c})'))
+                t2 = self.block(s.orelse, e2, self.fresh('pc', f'({pc} && negb {c})'))
+                if t1 and t2:
+                    return True
+                if t1:
+                    env.clear(); env.update(e2)
+                    pc = self.fresh('pc', f'({pc} && negb {c})')
+                elif t2:
+                    env.clear(); env.update(e1)
+                    pc = self.fresh('pc', f'({pc} && {c})')
+                else:
+                    for k in set(e1) | set(e2):
+                        if k in e1 and k in e2:
+                            if e1[k] != e2[k]:
+                                if e1[k][1] == e2[k][1]:
+                                    env[k] = (self.fresh(k, f'(if {c} then {e1[k][0]} else {e2[k][0]})'), e1[k][1])
+                                else:
+                                    env[k] = (self.fresh(k, f'(if {c} then {self.lift(e1[k])} else {self.lift(e2[k])})'), 'OB')
+                        elif k in env:
+                            del env[k]
+                continue
+            self.fail(s, 'statement')
+        return False
+
+
+def gen_auto(repo):
+    tree, _ = parse_file(os.path.join(repo, 'pymoto/solvers/auto_determine.py'))
+    fn = find_func(tree, 'auto_determine_solver')
+    args = [a.arg for a in fn.args.args]
+    if args != ['A'] + list(DEC_PARAMS) or [ast.unparse(d) for d in fn.args.defaults] != ['None'] * 6:
+        raise Unsupported('T-dec: signature of auto_determine_solver changed')
+    em = DecEmitter()
+    env = {k: (v, 'OB') for k, v in DEC_PARAMS.items()}
+    done = em.block(fn.body, env, 'true')
+    if not done:
+        raise Unsupported('T-dec: a path through auto_determine_solver does not return')
+    out = ['(* GENERATED by tools/gen_C05.py from pymoto/solvers/auto_determine.py -- do not edit *)',
+           'From Coq Require Import Bool.', 'From Pymoto Require Import Model.AutoSolver.', '',
+           f'Definition gen_auto_solver {DEC_SIG} : solver_kind :=']
+    for name, term in em.lets:
+        out.append(f'  let {name} := {term} in')
+    chain = 'KNoReturn'
+    for pc, r in reversed(em.rets):
+        chain = f'if {pc} then {r}\n  else {chain}'
+    out.append('  ' + chain + '.')
+    # the matrix predicates used by the decision procedure
+    mtree, _ = parse_file(os.path.join(repo, 'pymoto/solvers/matrix_checks.py'))
+    return '\n'.join(out) + '\n'
+
+
 if __name__ == '__main__':
     import sys
     repo = sys.argv[1] if len(sys.argv) > 1 else '/repo'
     print(gen_dense(repo))
+    print(gen_cg(repo))
+    print(gen_auto(repo))
